@@ -34,6 +34,7 @@ type rGen struct {
 	pendingViol bool
 	hist        [][][2]int64 // per source: every (id, owner) ever sent
 	resend      [][][2]int64 // per source: tasks to re-send after a source-stream restart (same ids, same owners)
+	burstGen    bool         // burst trace: naps between operations
 	slowSrc     bool         // the sources are at times slow to read their acknowledgements (`sgate`)
 	sgated      []bool
 }
@@ -44,6 +45,91 @@ func newRGenSlowSrc(rng *rand.Rand, focus string) (*rGen, string) {
 	g.sgated = make([]bool, g.ns)
 	g.faultsLeft = 0
 	return g, begin
+}
+
+// fan-in under backlog (directed family, inside the op language): several sources feed one target while that target is
+// held (its queue fills with sub-batches of all of them), the target then confirms exactly what it got, the sources send
+// more for it, and ANOTHER target's progress makes every source re-evaluate its minimum — acknowledgements of one
+// source must never be credited with another source's ids, whatever the sender did with the backlog.
+func newRGenFanIn(rng *rand.Rand, focus string) (*rGen, string) {
+	g, begin := newRGen(rng, focus)
+	if g.ns < 2 {
+		g.ns = 2 + rng.IntN(2)
+		g.nextID = make([]int64, g.ns)
+		g.high = make([]int64, g.ns)
+		g.hist = make([][][2]int64, g.ns)
+		g.resend = make([][][2]int64, g.ns)
+		begin = fmt.Sprintf("begin %d %d 100 %s", g.ns, g.nt, routingSeedFlag())
+	}
+	if g.nt < 2 {
+		g.nt = 2
+		g.gated = make([]bool, g.nt)
+		g.lateTgt = make([]bool, g.nt)
+		begin = fmt.Sprintf("begin %d %d 100 %s", g.ns, g.nt, routingSeedFlag())
+	}
+	// sources far apart in id space (a later source's ids lie above an earlier source's)
+	for s := range g.nextID {
+		g.nextID[s] = int64(5 + 200*s + rng.IntN(20))
+	}
+	g.faultsLeft = 0
+	g.steps = 0
+	var q []string
+	for s := 0; s < g.ns; s++ {
+		q = append(q, fmt.Sprintf("opensrc %d", s))
+	}
+	for t := 0; t < g.nt; t++ {
+		g.lateTgt[t] = false
+		q = append(q, fmt.Sprintf("opentgt %d", t))
+	}
+	a, b := rng.IntN(g.nt), 0
+	for b = rng.IntN(g.nt); b == a; b = rng.IntN(g.nt) {
+	}
+	for s := 0; s < g.ns; s++ { // everybody has acknowledged something: no first-ack hold-back in play
+		q = append(q, g.genBatchFor(s, a), g.genBatchFor(s, b))
+	}
+	q = append(q, fmt.Sprintf("ackall %d", a), fmt.Sprintf("ackall %d", b), fmt.Sprintf("gate %d 1", a))
+	for r := 0; r < 1+rng.IntN(3); r++ {
+		order := rng.Perm(g.ns)
+		for _, s := range order {
+			q = append(q, g.genBatchFor(s, a))
+			if rng.IntN(2) == 0 {
+				q = append(q, g.genBatchFor(s, b))
+			}
+		}
+	}
+	q = append(q, fmt.Sprintf("gate %d 0", a), fmt.Sprintf("ackall %d", a))
+	for _, s := range rng.Perm(g.ns) {
+		q = append(q, g.genBatchFor(s, a)) // more for the first target, which stays silent about them
+		if rng.IntN(2) == 0 {
+			q = append(q, g.genBatchFor(s, b))
+		}
+	}
+	q = append(q, fmt.Sprintf("ackall %d", b))
+	for s := 0; s < g.ns; s++ {
+		g.high[s] = g.nextID[s] + int64(rng.IntN(3))
+		g.nextID[s] = g.high[s]
+		q = append(q, fmt.Sprintf("batch %d %d", s, g.high[s]))
+	}
+	q = append(q, fmt.Sprintf("ackall %d", b))
+	g.queue = q
+	return g, begin
+}
+
+// burst traces (monitors only): the same operations, but they follow each other within one instant unless a `nap` of
+// 30 ms … 1.2 s lies between them — acknowledgements a few milliseconds apart, inside one ticker period, across it. Timing
+// inside a second is outside the model's op language (its settle is "until nothing moves"), so only the monitors judge.
+func newRGenBurst(rng *rand.Rand, focus string) (*rGen, string) {
+	g, begin := newRGen(rng, focus)
+	g.burstGen = true
+	g.faultsLeft = 0
+	for t := range g.lateTgt { // late targets need retry sleepers to wake up: keep to targets that are there from the start
+		if g.lateTgt[t] {
+			g.lateTgt[t] = false
+			g.queue = append(g.queue, fmt.Sprintf("opentgt %d", t))
+		}
+	}
+	g.queue = append(g.queue, "nap 1300")
+	return g, begin + " burst"
 }
 
 func newRGen(rng *rand.Rand, focus string) (*rGen, string) {
@@ -251,6 +337,9 @@ func (g *rGen) next(w *rWorld, i int) string {
 		for t := 0; t < g.nt; t++ {
 			g.queue = append(g.queue, fmt.Sprintf("opentgt %d", t))
 		}
+		if g.burstGen {
+			g.queue = append(g.queue, "nap 1300")
+		}
 		for round := 0; round < 2; round++ {
 			for s := 0; s < g.ns; s++ {
 				if g.high[s] == 0 {
@@ -258,8 +347,14 @@ func (g *rGen) next(w *rWorld, i int) string {
 				}
 				g.queue = append(g.queue, fmt.Sprintf("batch %d %d", s, g.high[s]))
 			}
+			if g.burstGen {
+				g.queue = append(g.queue, "nap 1300")
+			}
 			for t := 0; t < g.nt; t++ {
 				g.queue = append(g.queue, fmt.Sprintf("ackall %d", t))
+			}
+			if g.burstGen {
+				g.queue = append(g.queue, "nap 1300")
 			}
 		}
 		g.queue = append(g.queue, "checkdrain")
@@ -277,6 +372,9 @@ func (g *rGen) next(w *rWorld, i int) string {
 			}
 		}
 		return any
+	}
+	if g.burstGen && rng.IntN(3) == 0 {
+		return fmt.Sprintf("nap %d", []int{30, 120, 260, 400, 700, 1100, 1300}[rng.IntN(7)])
 	}
 	if g.slowSrc {
 		// a source that is slow to read: close / open its gate; while it is closed, idle watermarks of that source and
@@ -448,6 +546,33 @@ func runRoutingFocus(t *testing.T, focus string) {
 	}
 	for i := 0; i < nSlow; i++ {
 		g, begin := newRGenSlowSrc(e.Rng, focus)
+		ops, viol := runRoutingTrace(t, e, begin, g.next)
+		e.Evals++
+		if len(ops) > 6 {
+			e.Distinct(fnv(strings.Join(ops, "|")))
+		}
+		report(viol)
+	}
+	nFan := 0
+	if focus == "C01" {
+		nFan = n / 6
+	}
+	for i := 0; i < nFan; i++ {
+		g, begin := newRGenFanIn(e.Rng, focus)
+		ops, viol := runRoutingTrace(t, e, begin, g.next)
+		e.Evals++
+		e.Count("trace_fan_in_under_backlog")
+		if len(ops) > 6 {
+			e.Distinct(fnv(strings.Join(ops, "|")))
+		}
+		report(viol)
+	}
+	nBurst := 0
+	if focus == "C03" || focus == "C01" {
+		nBurst = n / 4
+	}
+	for i := 0; i < nBurst; i++ {
+		g, begin := newRGenBurst(e.Rng, focus)
 		ops, viol := runRoutingTrace(t, e, begin, g.next)
 		e.Evals++
 		if len(ops) > 6 {
